@@ -117,6 +117,9 @@ fn bfs(st: &Stats, name: &str, max_depth: Option<u32>, state_cap: usize) {
         depth += 1;
         // all ordered pairs with at least one member from the last level
         let fs = frontier_start;
+        // on a broken tree nearly every transition is a violation and every wrong result is a new state: stop
+        // working on a level as soon as enough violations have been seen
+        let seen_viol = std::sync::atomic::AtomicU64::new(kept_violations);
         let results: Vec<(Vec<(usize, usize, Operation, MP, u32)>, Vec<Violation>, u64)> = (0..n)
             .into_par_iter()
             .map(|x| {
@@ -124,6 +127,9 @@ fn bfs(st: &Stats, name: &str, max_depth: Option<u32>, state_cap: usize) {
                 let mut viol = vec![];
                 let mut t = 0u64;
                 let mut local_seen: std::collections::HashSet<Vec<u64>> = Default::default();
+                if seen_viol.load(std::sync::atomic::Ordering::Relaxed) >= 2000 {
+                    return (news, viol, t);
+                }
                 for y in 0..n {
                     if x < fs && y < fs {
                         continue;
@@ -136,6 +142,7 @@ fn bfs(st: &Stats, name: &str, max_depth: Option<u32>, state_cap: usize) {
                             if viol.len() >= 50 {
                                 break;
                             }
+                            seen_viol.fetch_add(1, std::sync::atomic::Ordering::Relaxed);
                             let e = json!({"op": op_name(op), "x": expr(&states, x), "y": expr(&states, y)});
                             viol.push(Violation { clause: c.clone(), key: format!("{name}:{}", e), case: json!({"prop": "C11", "kind": "chain", "family": name, "expr": e}) });
                         }
